@@ -38,6 +38,12 @@ func ufTreeJSON(fs []uf.UnknownField, seeds []int) string {
 		if i > 0 {
 			sb.WriteByte(',')
 		}
+		// a node whose Go value does not have the dynamic type its tag promises (a lost / nil / foreign Value) is projected
+		// with the impossible tag -999: it can equal no node of the reference tree, and TLC never looks into its value
+		if !ufValueMatches(&f) {
+			fmt.Fprintf(&sb, `{"id":%d,"t":-999,"kt":%d,"vt":%d,"v":{"unknown":true}}`, f.ID, f.KeyType, f.ValType)
+			continue
+		}
 		fmt.Fprintf(&sb, `{"id":%d,"t":%d,"kt":%d,"vt":%d,"v":`, f.ID, f.Type, f.KeyType, f.ValType)
 		switch v := f.Value.(type) {
 		case bool:
@@ -69,6 +75,36 @@ func ufTreeJSON(fs []uf.UnknownField, seeds []int) string {
 	}
 	sb.WriteByte(']')
 	return sb.String()
+}
+
+func ufValueMatches(f *uf.UnknownField) bool {
+	switch f.Type {
+	case thrift.BOOL:
+		_, ok := f.Value.(bool)
+		return ok
+	case thrift.BYTE:
+		_, ok := f.Value.(int8)
+		return ok
+	case thrift.I16:
+		_, ok := f.Value.(int16)
+		return ok
+	case thrift.I32:
+		_, ok := f.Value.(int32)
+		return ok
+	case thrift.I64:
+		_, ok := f.Value.(int64)
+		return ok
+	case thrift.DOUBLE:
+		_, ok := f.Value.(float64)
+		return ok
+	case thrift.STRING:
+		_, ok := f.Value.(string)
+		return ok
+	case thrift.LIST, thrift.SET, thrift.MAP, thrift.STRUCT:
+		_, ok := f.Value.([]uf.UnknownField)
+		return ok
+	}
+	return false
 }
 
 // ufCountMax: safety device — conversion allocates a slice of the declared element count.
@@ -371,6 +407,39 @@ func runUFCase(raw json.RawMessage, w *TraceWriter) {
 		if out := write(fs); out != nil {
 			conv(out, api)
 		}
+	case "wide":
+		// many fields in flight: a struct with N scalar fields, then a nested struct with Depth*50 fields (itself holding a
+		// list of structs), then more fields - converted twice in a row (a converter that keeps scratch state between calls)
+		s := &SegBuf{}
+		s.Struct(12, 0, 1)
+		for i := 0; i < c.N; i++ {
+			s.Struct(8, byte((i+1)>>8), byte(i+1))
+			s.Lit(0, 0, byte(i>>8), byte(i))
+		}
+		s.Struct(12, 0x75, 0x31)
+		for i := 0; i < c.Depth*50; i++ {
+			s.Struct(6, byte((i+1)>>8), byte(i+1))
+			s.Lit(byte(i>>8), byte(i))
+		}
+		s.Struct(15, 0x7f, 0x00)
+		s.Lit(12)
+		s.Size4(2)
+		s.Struct(11, 0, 1)
+		s.Size4(2)
+		s.Lit('h', 'i')
+		s.Struct(0)
+		s.Struct(0)
+		s.Struct(0)
+		s.Struct(10, 0x75, 0x32)
+		s.Lit(1, 2, 3, 4, 5, 6, 7, 8)
+		s.Struct(0)
+		s.Struct(8, 0, 2)
+		s.Lit(0, 0, 0, 9)
+		for rep := 0; rep < 2; rep++ {
+			if fs, ok := conv(s.b, api); ok && rep == 0 {
+				write(fs)
+			}
+		}
 	case "badtree":
 		// a well-typed tree with ONE node whose type tag is not a Thrift type, at a random position (top level, list /
 		// set element, map key or value, struct field, any depth): both the length function and the writer refuse it
@@ -466,12 +535,18 @@ func ufCases(c *Ctx, n int, hostile bool) []json.RawMessage {
 			out = append(out, mustJSON(UFCase{Mode: "badtree", Seed: rng.Int63(), N: 1 + rng.Intn(3), Depth: 1 + rng.Intn(4)}))
 		}
 		out = append(out, mustJSON(UFCase{Mode: "badget"}))
+		// (sizes kept where TLC's recursive reference stays fast: about 400 fields in total)
+		for _, n := range []int{0, 1, 31, 32, 33, 62, 63, 64, 65, 100, 126, 127, 128, 129, 200, 255, 256, 257} {
+			for _, d := range []int{1, 2, 3} {
+				out = append(out, mustJSON(UFCase{Mode: "wide", N: n, Depth: d, Refl: (n+d)%4 == 0}))
+			}
+		}
 	}
 	return out
 }
 
 func checkC13(c *Ctx) {
-	c.rule = "MC: over all well-typed trees within bounds (every type at the top level and as element/key/value type of the first container level, reduced alphabet below, 0..2 elements, two fields after one another inside a struct) ToTree(ToBytes(t)) = t, ToBytes(ToTree(b)) = b, TreeLen = length, tags only where meaningful. TRACE: random field sequences from the typed value generator -> ConvertUnknownFields / GetUnknownFields -> WriteUnknownFields / UnknownFieldsLength, and random Go trees -> write -> convert; TLC compares every tree field by field (ID, Type, KeyType, ValType, Value) with ToTree and every output with ToBytes; truncated and perturbed inputs are accepted exactly when the reference accepts them; trees with one node of a non-Thrift type at any position are refused by the length function and the writer, values without unknown fields by GetUnknownFields (an error, never a panic)."
+	c.rule = "MC: over all well-typed trees within bounds (every type at the top level and as element/key/value type of the first container level, reduced alphabet below, 0..2 elements, two fields after one another inside a struct) ToTree(ToBytes(t)) = t, ToBytes(ToTree(b)) = b, TreeLen = length, tags only where meaningful. TRACE: random field sequences from the typed value generator -> ConvertUnknownFields / GetUnknownFields -> WriteUnknownFields / UnknownFieldsLength, random Go trees -> write -> convert, and wide structs (0..257 fields in flight around every power of two, a nested struct of 50..150 fields behind them, converted twice in a row); TLC compares every tree field by field (ID, Type, KeyType, ValType, Value) with ToTree and every output with ToBytes; truncated and perturbed inputs are accepted exactly when the reference accepts them; trees with one node of a non-Thrift type at any position are refused by the length function and the writer, values without unknown fields by GetUnknownFields (an error, never a panic)."
 	c.MC("MC_UnknownFields.tla", "MC_UnknownFields.cfg", 4)
 	cases := ufCases(c, c.Pick(1500, 30000), false)
 	// truncated / perturbed inputs: accepted exactly when the reference accepts them (a converter that swallows a
